@@ -57,13 +57,24 @@ func envI(name string, def int64) int64 {
 	return def
 }
 
+var portSeq = 10000 + (os.Getpid()*131)%20000
+
+// freePort picks a listen port BELOW the ephemeral range (the scripted nodes bind ephemeral ports on 127.0.0.x, and a
+// wildcard listen on a port one of them holds fails), probing the wildcard address the server will listen on.
 func freePort() string {
-	l, err := net.Listen("tcp", "127.0.0.1:0")
-	if err != nil {
-		return "28444"
+	for i := 0; i < 200; i++ {
+		portSeq++
+		if portSeq >= 32000 {
+			portSeq = 10000
+		}
+		l, err := net.Listen("tcp4", ":"+strconv.Itoa(portSeq))
+		if err != nil {
+			continue
+		}
+		_ = l.Close()
+		return strconv.Itoa(portSeq)
 	}
-	defer l.Close()
-	return strconv.Itoa(l.Addr().(*net.TCPAddr).Port)
+	return "28444"
 }
 
 // rig is the real server over the real SQL stack, offline.
